@@ -35,7 +35,7 @@ def samples(role, name, ty, custom):
     elif 'License' in inner: alt = (['MIT\\ntext'] if role == 'copyright_license' else ['MIT'])
     elif 'Forwarded' in inner: alt = ['no', 'https://example.com/b/1']
     elif 'AppliedUpstream' in inner: alt = ['1.2.3']
-    elif 'NaiveDate' in inner: alt = ['1999-12-31']
+    elif 'NaiveDate' in inner: alt = ['2021-01-01', '2024-12-30']   # (ISO week-year differs from the calendar year on both)
     elif 'Version' in inner: alt = ['1.0', '2:3~~a+b-0.1']
     elif 'PathBuf' in inner: alt = ['/b']
     elif inner == 'bool': alt = ['no' if custom else 'false']
